@@ -110,7 +110,7 @@ def gen_window(rng, pool, allow_perm=False, malformed_ok=False):
     c = None
     r = rng.random()
     if r < 0.10:
-        c = -1                                    # cancelled before run()
+        c = rng.choice([-1, -2])                  # cancelled before run(): after / before the Simulation is built
     elif r < 0.22:
         c = rng.choice(pool) + rng.choice([-Q, 0, Q])   # cancelled by an event during the run
     return a, e, c
@@ -131,6 +131,9 @@ def build_schedule(faults, make):
     from happysimulator.faults import FaultSchedule
     fs = FaultSchedule()
     handles = [fs.add(make(f)) for f in faults]
+    for f, h in zip(faults, handles):
+        if f["c"] is not None and f["c"] == -2:
+            h.cancel()                            # cancelled before the Simulation (and with it the fault events) exists
     return fs, handles
 
 
@@ -140,6 +143,8 @@ def arm_cancels(sim, faults, handles):
     for f, h in zip(faults, handles):
         if f["c"] is None:
             continue
+        if f["c"] == -2:
+            continue                              # already cancelled in build_schedule
         if f["c"] < 0:
             h.cancel()
         else:
